@@ -261,6 +261,9 @@ func c16repairOne(t *testing.T, out *verifh.Out, rnd *rand.Rand, dir string) {
 		st.SlaveState = ss
 	}
 	cs["c1"] = st
+	if rnd.Intn(4) != 0 { // as the probed view: replicas carry their source's master state
+		vAddSourceInfo(cs)
+	}
 	timerZero := rnd.Intn(2) == 0
 	if !timerZero {
 		app.t.Set(StreamFromFailedAt, "c1", time.Now().Add(-time.Minute))
